@@ -53,8 +53,8 @@ def opsOf (self : Nat) (md : MDef) (pops : List POp) (payload : Nat) : List Op :
 def Bench.prog (b : Bench) : Prog :=
   { react := fun m p => match b.models[m]? with | some md => opsOf m md md.react p | none => []
     reply := fun m p => p * 3 + m + 1
-    initPayload := fun m => 900 + m
-    initOps := fun m => match b.models[m]? with | some md => opsOf m md md.initOps (900 + m) | none => []
+    initPayload := fun m => 9000 + 10 * m
+    initOps := fun m => match b.models[m]? with | some md => opsOf m md md.initOps (9000 + 10 * m) | none => []
     cap := fun m => match b.models[m]? with | some md => md.cap | none => 0
     isModel := fun m => m < b.models.length
     inSim := fun m => match b.models[m]? with | some md => md.inSim | none => false
